@@ -797,9 +797,26 @@ class Forms:
             if ext and 0 < ext[0] < len(specs):
                 # the definition written as a dataclass payload that extends another dataclass payload: the first
                 # ext[0] fields live in the parent; ext[1] = the parent is used (and hence converted) first
-                base = dataclasses.make_dataclass(defn["name"] + "Base", specs[:ext[0]], bases=(DataClassPayload,),
-                                                  module=SCRATCH)
-                setattr(mod, defn["name"] + "Base", base)
+                if len(ext) > 2 and ext[2]:
+                    # the parent lives in ANOTHER module that uses stringified annotations (from __future__ import
+                    # annotations): each parent field is annotated with the name of an alias bound in that module; the
+                    # child's module binds the same names to something else
+                    bmod = sys.modules.get(SCRATCH + "_base")
+                    if bmod is None:
+                        bmod = sys.modules[SCRATCH + "_base"] = types.ModuleType(SCRATCH + "_base")
+                    bspecs = []
+                    for j, spec in enumerate(specs[:ext[0]]):
+                        alias = "T_%s_%d" % (defn["name"], j)
+                        setattr(bmod, alias, spec[1])
+                        setattr(mod, alias, type_from_format("20s") if j % 2 else bool)
+                        bspecs.append((spec[0], alias, *spec[2:]))
+                    base = dataclasses.make_dataclass(defn["name"] + "Base", bspecs, bases=(DataClassPayload,),
+                                                      module=SCRATCH + "_base")
+                    setattr(bmod, defn["name"] + "Base", base)
+                else:
+                    base = dataclasses.make_dataclass(defn["name"] + "Base", specs[:ext[0]], bases=(DataClassPayload,),
+                                                      module=SCRATCH)
+                    setattr(mod, defn["name"] + "Base", base)
                 cls = dataclasses.make_dataclass(defn["name"], specs[ext[0]:], bases=(base,),
                                                  namespace=_hook_namespace(defn), module=SCRATCH)
                 if ext[1]:
@@ -1268,7 +1285,7 @@ def _definition_strategy(plain_formats: list[str]):
         if draw(st.booleans()):
             defn["native"] = 1
         if len(fields) > 1 and draw(st.integers(0, 2)) == 0:
-            defn["extends"] = [draw(st.integers(1, len(fields) - 1)), draw(st.integers(0, 1))]
+            defn["extends"] = [draw(st.integers(1, len(fields) - 1)), draw(st.integers(0, 1)), draw(st.integers(0, 1))]
         if defaults and draw(st.integers(0, 3)) == 0:
             defn["wrapped"] = 1
         if defaults and draw(st.integers(0, 3)) == 0:
